@@ -1,0 +1,17 @@
+//go:build verif
+
+package acme
+
+import (
+	"time"
+
+	"github.com/jcmoraisjr/haproxy-ingress/pkg/types"
+)
+
+// VerifNewSigner creates the real signer with an injected acme Client.
+func VerifNewSigner(logger types.Logger, cache Cache, metrics types.Metrics, client Client, expiring time.Duration) Signer {
+	s := NewSigner(logger, cache, metrics).(*signer)
+	s.client = client
+	s.expiring = expiring
+	return s
+}
